@@ -298,7 +298,7 @@ pub fn run(args: &Args) {
     out.count(&format!("suppressed={}", (o.raw.len() - o.kept.len().min(o.raw.len())).min(3)));
     out.case(
       json!({"m": "imp", "first": first, "lines": lines}),
-      json!({"raw": raw_j, "kept": kept_j, "wheres": wheres, "after": after}),
+      json!({"wf": true, "raw": raw_j, "kept": kept_j, "wheres": wheres, "after": after}),
       meta,
     );
   }
